@@ -29,10 +29,52 @@ def _rec_matches(rec, pat):
     return True
 
 
+SYNC_OK = ("Commit", "TryCommit", "OverlayCommit", "OverlayTryCommit", "Rollback")
+
+
+def aba_commit_upto(steps, upto):
+    """Index of the first successful commit (within steps[:upto]) of a changeset / overlay that was prepared BEFORE another
+    successful sync which is not the commit of one of its own ancestors - i.e. the store moved away from the changeset's
+    base and came back to it by value (rollback, inverse writes) - or None."""
+    sess_chain, fin_at, fin_chain, ovl_at, ovl_chain = {}, {}, {}, {}, {}
+    syncs = []          # (index, kind, id) of successful syncs
+    for i, st in enumerate(steps[:upto]):
+        a, ok = st.get("a"), st.get("res", "Ok") == "Ok"
+        if a == "Begin" and ok:
+            sess_chain[st.get("s")] = list(st.get("chain") or [])
+        elif a == "Finish":
+            fin_at[st.get("f")] = i
+            fin_chain[st.get("f")] = sess_chain.get(st.get("s"), [])
+        elif a == "IntoOverlay":
+            ovl_at[st.get("o")] = fin_at.get(st.get("f"), i)
+            ovl_chain[st.get("o")] = fin_chain.get(st.get("f"), [])
+        elif a in SYNC_OK and ok:
+            if a in ("Commit", "TryCommit"):
+                born, anc = fin_at.get(st.get("f")), fin_chain.get(st.get("f"), [])
+            elif a in ("OverlayCommit", "OverlayTryCommit"):
+                born, anc = ovl_at.get(st.get("o")), ovl_chain.get(st.get("o"), [])
+            else:
+                born, anc = None, []
+            if born is not None:
+                foreign = [x for x in syncs if x[0] > born and not (x[1] == "ovl" and x[2] in anc)]
+                if foreign:
+                    return i
+            syncs.append((i, "ovl" if a.startswith("Overlay") else ("rb" if a == "Rollback" else "fin"), st.get("o")))
+        elif a in ("Close", "Reopen"):
+            pass
+    return None
+
+
 def match_api(prop, rej, script):
-    """signature kind 'api-trace': {at: {field: value..}, cls: [...], prior: [{a:..,res:..}, ...]}"""
+    """signature kind 'api-trace': {at: {field: value..}, cls: [...], prior: [{a:..,res:..}, ...]};
+    kind 'api-aba': the run contains, at or before the rejected record, the successful commit of a changeset whose base
+    root recurred by value after other commits (see aba_commit_upto)."""
     for f in _load():
         sig = f.get("signature", {})
+        if sig.get("kind") == "api-aba":
+            if aba_commit_upto(script["steps"], rej["pos"] + 1) is not None:
+                return dict(id=f["id"], property=f["property"], what=f["what"])
+            continue
         if sig.get("kind") != "api-trace" or f.get("property") != prop:
             continue
         if "cls" in sig and rej["cls"] not in sig["cls"]:
